@@ -246,7 +246,8 @@ Proof.
   - rewrite Hp in H. destruct Hph as [(Hs & He & pre & Hd & Hq)|(Hs & He & pre & Hd & Hq)].
     + (* switch to the scriptPubKey *)
       rewrite Hs in H. destruct succ as [|s0 sr]; [contradiction|]. cbn [orb] in H. rewrite Bool.andb_true_r in H.
-      destruct (negb (cs_empty (e_cond (i_e v)))); [discriminate|]. rewrite Hnp in H. inversion H; subst v'. clear H.
+      destruct (negb (cs_empty (e_cond (i_e v)))); [discriminate|].
+      destruct (MAX_SCRIPT_SIZE <? zlen (s0 :: sr)); [discriminate|]. rewrite Hnp in H. inversion H; subst v'. clear H.
       split; [reflexivity|]. split; [reflexivity|]. right. cbn [i_succ i_e e_script i_pc i_seq].
       split; [reflexivity|]. split; [reflexivity|]. exists []. split; [reflexivity|].
       rewrite decode_ops_nil, app_nil_r in Hd. rewrite Hq, Hd. cbn [length]. lia.
